@@ -104,6 +104,18 @@ class Opaque:
 
 SCALARS['Opaque'] = Opaque
 
+
+def _newtype(base):
+    """User subclasses of the basic scalar types, all produced by ONE factory: same module, same qualified name
+    ('_newtype.<locals>.Id'), different bases - like a class statement run several times."""
+    class Id(base):     # type: ignore
+        __slots__ = ()
+    Id.__module__ = 'simworld'
+    return Id
+
+
+SCALARS.update({'IdInt': _newtype(int), 'IdFloat': _newtype(float), 'IdDecimal': _newtype(Decimal), 'IdFraction': _newtype(Fraction)})
+
 # ---------------------------------------------------------------------------------------------
 # handler pool (all pure; identity of the function objects is what enters pane's memo key)
 
@@ -504,7 +516,7 @@ class World:
 
 def define_enum(spec: dict, world: World):
     members = {n: dec(v) for (n, v) in spec['members']}
-    e = enum.Enum(spec['name'], members)
+    e = enum.Enum(spec.get('pyname') or spec['name'], members, module='simworld')
     world.enums[spec['name']] = e
     world.enum_specs[spec['name']] = spec
     return e
@@ -581,7 +593,7 @@ def define_class(spec: dict, world: World):
             kwds[k] = tuple(v) if isinstance(v, list) else v
     if spec.get('custom') is not None:
         kwds['custom'] = build_handlers(spec['custom'], world.faulty)
-    cls = types.new_class(spec['name'], tuple(bases), kwds, lambda n: n.update(ns))
+    cls = types.new_class(spec.get('pyname') or spec['name'], tuple(bases), kwds, lambda n: n.update(ns))
     world.classes[spec['name']] = cls
     world.class_specs[spec['name']] = spec
     return cls
@@ -812,6 +824,14 @@ def sample_value(ast, world: World, rng, valid_p=0.8, alphabet='mixed', depth=0,
             return rng.choice(JUNK)
         if n == 'Opaque':
             return rng.choice([1, 'op', 7, 'q'])
+        if n == 'IdInt':
+            return rng.choice([1, 12, -3, '12', 2.5])
+        if n == 'IdFloat':
+            return rng.choice([2.5, 1, -0.5, 'x'])
+        if n == 'IdDecimal':
+            return rng.choice(['1.50', '12', 3, 'x'])
+        if n == 'IdFraction':
+            return rng.choice(['1/3', '12', 5, 0.5])
     if k == 'ref':
         raise HarnessError("sample_value: refs must be resolved by the caller")
     if k in ('list', 'tlist', 'tseq', 'vtuple', 'tvtuple', 'set', 'tset', 'frozenset'):
@@ -1150,7 +1170,10 @@ def gen_enum_spec(rng, name):
         members = [['X', 'x'], ['Y', 'y'], ['Z', 'é']][:rng.choice([1, 2, 3])]
     else:
         members = [['A', 1], ['X', 'x']]
-    return {'name': name, 'members': members}
+    spec = {'name': name, 'members': members}
+    if rng.random() < 0.4:
+        spec['pyname'] = rng.choice(['Mode', 'Mode', 'Kind'])      # different enums of a run may share their Python name
+    return spec
 
 
 FIELD_NAMES = ['x', 'y', 'z', 'w', 'foo_bar', 'val']
@@ -1242,4 +1265,8 @@ def gen_class_spec(rng, world: World, name, kinds, scalars, generic_p=0.25, inhe
     r = rng.random()
     if r < 0.35:
         spec['strann'] = 'local' if r < 0.2 else 'mixed'
+    # several *different* classes of a run may carry the same Python name (a class statement run again with other
+    # fields, nested `Config` classes of different owners): whatever is remembered under a name or a repr collides
+    if rng.random() < 0.4:
+        spec['pyname'] = rng.choice(['Config', 'Config', 'Item'])
     return spec
